@@ -60,18 +60,18 @@ def _idx_set(x):
 def _compare_structure(ctx, what, ci_list, point, quantiles, wit):
     ctx.ev("ci_structures_compared")
     if not ctx.check(isinstance(ci_list, list) and len(ci_list) == len(quantiles), "ci_not_one_entry_per_quantile:" + what,
-                     got_type=type(ci_list).__name__, got_len=(len(ci_list) if hasattr(ci_list, "__len__") else None), **wit):
+                     got_type=type(ci_list).__name__, got_len=(len(ci_list) if hasattr(ci_list, "__len__") else None), wit=wit):
         return False
     ok = True
     for q, e in zip(quantiles, ci_list):
-        ok &= ctx.check(_kind(e) == _kind(point), "ci_entry_type_differs_from_estimate:" + what, entry=_kind(e), estimate=_kind(point), **wit)
+        ok &= ctx.check(_kind(e) == _kind(point), "ci_entry_type_differs_from_estimate:" + what, entry=_kind(e), estimate=_kind(point), wit=wit)
         if isinstance(point, pd.DataFrame) and isinstance(e, pd.DataFrame):
             ok &= ctx.check(list(e.columns) == list(point.columns), "ci_entry_columns_differ:" + what, entry=list(map(str, e.columns)),
-                            estimate=list(map(str, point.columns)), **wit)
+                            estimate=list(map(str, point.columns)), wit=wit)
         if isinstance(point, (pd.Series, pd.DataFrame)) and isinstance(e, (pd.Series, pd.DataFrame)):
             ok &= ctx.check(_idx_set(e) <= _idx_set(point), "ci_entry_index_not_in_estimate_index:" + what, entry=sorted(_idx_set(e))[:12],
-                            estimate=sorted(_idx_set(point))[:12], **wit)
-            ok &= ctx.check(list(e.index.names) == list(point.index.names), "ci_entry_index_names_differ:" + what, **wit)
+                            estimate=sorted(_idx_set(point))[:12], wit=wit)
+            ok &= ctx.check(list(e.index.names) == list(point.index.names), "ci_entry_index_names_differ:" + what, wit=wit)
             if isinstance(point, pd.Series) and isinstance(e, pd.Series):
                 ok &= ctx.check(e.name == point.name, "ci_entry_series_name_differs:" + what, entry=repr(e.name), estimate=repr(point.name))
     return ok
@@ -95,7 +95,7 @@ def _check_monotone(ctx, what, ci_list, quantiles, wit):
             ctx.ev("monotonicity_checks")
             bad = (~np.isnan(prev)) & (~np.isnan(cur)) & (cur < prev - 1e-12 * np.maximum(1.0, np.abs(prev)))
             ctx.check(not bad.any(), "ci_not_monotone_in_quantile:" + what, sorted_quantiles=[quantiles[j] for j in order], lower=prev.tolist()[:10],
-                      upper=cur.tolist()[:10], **wit)
+                      upper=cur.tolist()[:10], wit=wit)
         prev = cur
 
 
@@ -153,37 +153,37 @@ def run_compose(ctx, rng, MetricFrame):
     mf1, m1 = build()
     full = [rec for rec in m1.log if len(rec["y_true"]) == n]
     # the first full-size invocation is the point estimate on the data itself; one-group resamples add duplicates of a resample
-    ctx.check(len(full) >= 1 + nb, "fewer_full_size_metric_invocations_than_resamples", full_size=len(full), **wit)
+    ctx.check(len(full) >= 1 + nb, "fewer_full_size_metric_invocations_than_resamples", full_size=len(full), wit=wit)
     resamples = []
     for rec in full[1:]:
         rows = m1.rows_of(rec)
         ctx.ev("resamples_observed")
         okrow = all(isinstance(r[0], int) and 0 <= r[0] < n and r[1] == r[0] + 10 ** 6 and r[2] == r[0] + 2 * 10 ** 6 for r in rows)
-        ctx.check(okrow, "resample_rows_not_intact_rows_of_the_data", rows=rows[:8], **wit)
+        ctx.check(okrow, "resample_rows_not_intact_rows_of_the_data", rows=rows[:8], wit=wit)
         resamples.append(tuple(sorted(r[0] for r in rows)))
     for rec in m1.log:
-        ctx.check(len(rec["y_true"]) <= n, "metric_saw_more_than_n_rows", saw=len(rec["y_true"]), **wit)
+        ctx.check(len(rec["y_true"]) <= n, "metric_saw_more_than_n_rows", saw=len(rec["y_true"]), wit=wit)
     # every resample's rows sum to n: group invocations between two full-size ones partition it - checked through sizes of 'count'
     distinct = set(resamples)
     if n >= 2 and nb >= 2:
         logp = math.lgamma(n + 1) - n * math.log(n)  # log P(a resample is a permutation) = log max multiset probability
         if logp * (nb - 1) < math.log(1e-12):
             ctx.ev("resample_distinctness_checks")
-            ctx.check(len(distinct) >= 2, "all_resamples_identical", n_resamples=len(resamples), **wit)
+            ctx.check(len(distinct) >= 2, "all_resamples_identical", n_resamples=len(resamples), wit=wit)
         if logp * nb < math.log(1e-12):
             ctx.ev("with_replacement_checks")
-            ctx.check(any(len(set(r)) < len(r) for r in resamples), "no_resample_contains_a_repeated_row", **wit)
+            ctx.check(any(len(set(r)) < len(r) for r in resamples), "no_resample_contains_a_repeated_row", wit=wit)
         if n * nb * math.log(1 - 1.0 / n) + math.log(n) < math.log(1e-12):
             ctx.ev("row_coverage_checks")
             seen = set(i for r in resamples for i in r)
-            ctx.check(len(seen) == n, "some_rows_are_never_drawn", never_drawn=sorted(set(range(n)) - seen), **wit)
+            ctx.check(len(seen) == n, "some_rows_are_never_drawn", never_drawn=sorted(set(range(n)) - seen), wit=wit)
     # same integer seed -> same resamples and same results
     mf2, m2 = build()
     full2 = [tuple(sorted(m2.rows_of(rec))) for rec in m2.log if len(rec["y_true"]) == n]
     full1 = [tuple(sorted(m1.rows_of(rec))) for rec in full]
     ctx.ev("reproducibility_pairs")
     ctx.check(full1 == full2, "same_seed_different_resamples", first=[list(map(list, f))[:3] for f in full1[1:3]],
-              second=[list(map(list, f))[:3] for f in full2[1:3]], **wit)
+              second=[list(map(list, f))[:3] for f in full2[1:3]], wit=wit)
 
 
 def varying(y_true, y_pred):
@@ -227,31 +227,31 @@ def run_structure(ctx, rng, MetricFrame):
         ci1 = acc[what][0]
         ctx.ev("reproducibility_pairs")
         same = isinstance(ci1, list) and isinstance(ci2, list) and len(ci1) == len(ci2) and all(_equal_obj(a, b) for a, b in zip(ci1, ci2))
-        ctx.check(same, "same_seed_different_ci:" + what, **wit)
+        ctx.check(same, "same_seed_different_ci:" + what, wit=wit)
     if form == "dict":
         for qi, q in enumerate(qs):
             ov = mf.overall_ci[qi]
             ctx.ev("count_and_constant_checks")
             if nctl == 0:
-                ctx.check(close(ov["count"], n, 0, 0), "overall_row_count_not_n", quantile=q, got=repr(ov["count"]), **wit)
-                ctx.check(close(ov["const"], 0.625, 1e-12), "constant_metric_quantile_differs_from_estimate", got=repr(ov["const"]), **wit)
+                ctx.check(close(ov["count"], n, 0, 0), "overall_row_count_not_n", quantile=q, got=repr(ov["count"]), wit=wit)
+                ctx.check(close(ov["const"], 0.625, 1e-12), "constant_metric_quantile_differs_from_estimate", got=repr(ov["const"]), wit=wit)
             else:
                 tot = float(np.nansum(ov["count"].to_numpy(dtype=float)))
                 vals = ov["const"].to_numpy(dtype=float)
-                ctx.check(all(isnan(v) or close(v, 0.625, 1e-12) for v in vals), "constant_metric_quantile_differs_from_estimate", got=vals.tolist(), **wit)
+                ctx.check(all(isnan(v) or close(v, 0.625, 1e-12) for v in vals), "constant_metric_quantile_differs_from_estimate", got=vals.tolist(), wit=wit)
                 ctx.notes["control_count_total"] = tot
             bg = mf.by_group_ci[qi]["const"].to_numpy(dtype=float)
-            ctx.check(all(isnan(v) or close(v, 0.625, 1e-12) for v in bg), "constant_metric_quantile_differs_from_estimate:by_group", got=bg.tolist(), **wit)
+            ctx.check(all(isnan(v) or close(v, 0.625, 1e-12) for v in bg), "constant_metric_quantile_differs_from_estimate:by_group", got=bg.tolist(), wit=wit)
             for m in ("between_groups", "to_overall"):
                 d = np.asarray(mf.difference_ci(method=m)[qi]["const"], dtype=float).ravel()
-                ctx.check(all(isnan(v) or abs(v) <= 1e-12 for v in d), "constant_metric_difference_ci_not_zero", method=m, got=d.tolist(), **wit)
+                ctx.check(all(isnan(v) or abs(v) <= 1e-12 for v in d), "constant_metric_difference_ci_not_zero", method=m, got=d.tolist(), wit=wit)
     # positive width for varying data (P[all resample means equal] is far below 1e-12 for n>=4 distinct values, n_boot>=30)
     if wide and nb >= 30 and n >= 4 and nctl == 0:
         lo, hi = mf.overall_ci[qs.index(0.01)], mf.overall_ci[qs.index(0.99)]
         if form == "dict":
             lo, hi = lo["vary"], hi["vary"]
         ctx.ev("positive_width_checks")
-        ctx.check(float(hi) > float(lo), "wide_quantile_pair_has_zero_width_on_varying_data", lo=repr(lo), hi=repr(hi), **wit)
+        ctx.check(float(hi) > float(lo), "wide_quantile_pair_has_zero_width_on_varying_data", lo=repr(lo), hi=repr(hi), wit=wit)
         mean = float(np.mean(y_pred))
         spread = float(np.max(y_pred) - np.min(y_pred))
         ctx.check(float(lo) - 1e-9 <= mean + spread and float(hi) + 1e-9 >= mean - spread, "interval_far_from_data_range", lo=repr(lo), hi=repr(hi))
@@ -337,14 +337,14 @@ def run_reference(ctx, rng, MetricFrame):
             v = ci[qi]["wm"]
             ctx.ev("ci_values_bracketed")
             ctx.check(br is None or (br[0] - 1e-9 <= float(v) <= br[1] + 1e-9), "ci_value_outside_order_statistics_of_resamples:" + what,
-                      quantile=q, got=repr(v), bracket=br, per_resample=st[:12], **wit)
+                      quantile=q, got=repr(v), bracket=br, per_resample=st[:12], wit=wit)
         bgci = acc["by_group"][0][qi]["wm"]
         for gv in gl:
             br = _bracket(bystats[gv], q)
             if br is None:
-                ctx.check(gv not in bgci.index or isnan(bgci[gv]), "group_absent_from_every_resample_has_a_value", group=gv, **wit)
+                ctx.check(gv not in bgci.index or isnan(bgci[gv]), "group_absent_from_every_resample_has_a_value", group=gv, wit=wit)
                 continue
             ctx.ev("ci_values_bracketed")
             ctx.check(gv in bgci.index and br[0] - 1e-9 <= float(bgci[gv]) <= br[1] + 1e-9,
                       "ci_value_outside_order_statistics_of_resamples:by_group", quantile=q, group=gv,
-                      got=repr(bgci[gv]) if gv in bgci.index else "missing", bracket=br, per_resample=bystats[gv][:12], **wit)
+                      got=repr(bgci[gv]) if gv in bgci.index else "missing", bracket=br, per_resample=bystats[gv][:12], wit=wit)
